@@ -344,6 +344,18 @@ var c11KeyLen = probe.Define("C11", "keylength", func(t *rapid.T) c11In { panic(
 	return probe.Outcome{NonTrivial: true}
 })
 
+// the same without the wire round trip (for the sweeps over neighbouring identifiers)
+var c11KeyLenNear = probe.Define("C11", "keylength-near", func(t *rapid.T) c11In { panic("enumerated") }, func(in c11In) probe.Outcome {
+	for _, id := range in.IDs {
+		for _, a := range in.Attrs {
+			if err := c11CheckDecode(id, a, false); err != nil {
+				return probe.Fail("%v", err)
+			}
+		}
+	}
+	return probe.Outcome{NonTrivial: true}
+})
+
 // --- advertised algorithms and proposals ---
 
 type c11AdvIn struct {
@@ -625,6 +637,9 @@ type c11BadIn struct {
 	Attr  c11Attr `json:"attr"`
 	Child bool    `json:"child"`
 	Wire  bool    `json:"via_wire"`
+	// Proto: protocol id carried by the proposal (0 = leave what ToProposal set); a proposal is judged by its transforms
+	// whatever protocol it is for
+	Proto uint8 `json:"protocol_id,omitempty"`
 }
 
 var c11Bad = probe.Define("C11", "bad-proposal", func(t *rapid.T) c11BadIn {
@@ -634,6 +649,9 @@ var c11Bad = probe.Define("C11", "bad-proposal", func(t *rapid.T) c11BadIn {
 		in.ID = rapid.SampledFrom([]uint16{0, 1, 2, 3, 4, 5, 6, 11, 12, 13, 14, 15, 268, 0x0c00}).Draw(t, "id2")
 	}
 	in.Attr = rapid.SampledFrom(c11AttrClasses()).Draw(t, "attr")
+	if rapid.IntRange(0, 2).Draw(t, "proto") == 2 {
+		in.Proto = rapid.SampledFrom([]uint8{1, 2, 3, 4, 255}).Draw(t, "protoid")
+	}
 	return in
 }, func(in c11BadIn) probe.Outcome {
 	// is the altered transform supported according to the reference mapping?
@@ -688,6 +706,9 @@ var c11Bad = probe.Define("C11", "bad-proposal", func(t *rapid.T) c11BadIn {
 	case "esn":
 		bad.TransformType = 5
 		prop.ExtendedSequenceNumbers = message.TransformContainer{bad}
+	}
+	if in.Proto != 0 {
+		prop.ProtocolID = in.Proto
 	}
 	if in.Wire {
 		if prop, err = wireProposal(prop); err != nil {
@@ -823,6 +844,21 @@ func TestC11(t *testing.T) {
 			}
 			if !c11KeyLen.Eval(c, c11In{IDs: []uint16{12}, Attrs: attrs}) && c.Failures() > 5 {
 				break
+			}
+		}
+		// ... and for the identifiers next to it (a lookup keyed on a COMBINATION of identifier and key length can collide:
+		// id 11 with key length 1128, id 10 with 2128, ...): every key-length value, directly; more identifiers in the thorough tier
+		near := []uint16{10, 11, 13, 14}
+		if c.Thorough() {
+			near = []uint16{0, 1, 2, 3, 4, 5, 6, 7, 8, 9, 10, 11, 13, 14, 15, 16, 17, 18, 19, 20, 23, 24, 25, 28, 31, 32, 64, 65, 255, 256, 268, 1024}
+		}
+		for _, id := range near {
+			for v := 0; v < 65536 && c.Failures() <= 5; v += 512 {
+				var attrs []c11Attr
+				for k := 0; k < 512; k++ {
+					attrs = append(attrs, c11Attr{Class: "tv", Type: 14, Value: uint16(v + k)})
+				}
+				c11KeyLenNear.Eval(c, c11In{IDs: []uint16{id}, Attrs: attrs})
 			}
 		}
 		if c.Failures() == 0 {
